@@ -43,6 +43,8 @@ OTHER_SIGS = {
     "startPrank(address,address)": {"kind": "startPrank2"},
     "stopPrank()": {"kind": "stopPrank"},
     "etch(address,bytes)": {"kind": "etch"},
+    "setArbitraryStorage(address)": {"kind": "symstore"},
+    "enableSymbolicStorage(address)": {"kind": "symstore"},
     # halmos-cheatcodes SymTest (svm)
     "createUint(uint256,string)": {"kind": "fresh", "typ": "uint", "n": 0},
     "createInt(uint256,string)": {"kind": "fresh", "typ": "int", "n": 0},
